@@ -701,6 +701,18 @@ func (path *Path) getAsListOfSpecificType(getAsSeq, getAsSet bool) []uint32 {
 	return asList
 }
 
+// getAsMembers returns every AS number of every segment of the AS_PATH,
+// whatever the segment type.
+func (path *Path) getAsMembers() []uint32 {
+	asList := []uint32{}
+	if aspath := path.GetAsPath(); aspath != nil {
+		for _, param := range aspath.Value {
+			asList = append(asList, param.GetAS()...)
+		}
+	}
+	return asList
+}
+
 func (path *Path) GetLabelString() string {
 	return bgp.LabelString(path.GetNlri())
 }
